@@ -830,13 +830,18 @@ def Engine.handlePackets : Engine → List Packet → Engine × Res
 def Engine.connectUnsent (e : Engine) : Bool :=
   (match e.current with | some id => isConnectOp e id | none => false) || e.highQ.any (isConnectOp e)
 
+/-- `get_maximum_incoming_packet_size`: the configured maximum under MQTT 5, whose CONNECT announces it; a 3.1.1 CONNECT cannot
+    announce one, so only the protocol's own limit is in force -/
+def Engine.inboundMax (e : Engine) : Nat :=
+  if e.cfg.version == .v311 then maxPacket else e.cfg.connect.maximumPacketSize.getD maxPacket
+
 /-- `handle_network_event_incoming_data` -/
 def Engine.handleData (e : Engine) (data : Bytes) : Engine × Res :=
   if e.state == .disconnected || e.state == .halted then (e, .err "InternalStateError")
   else if e.state == .pendingConnack && e.connectUnsent then
     ({ e with state := .halted }, .err "ProtocolError")
   else
-    let cfg : DecodeCfg := { version := e.cfg.version, maxSize := e.cfg.connect.maximumPacketSize.getD maxPacket }
+    let cfg : DecodeCfg := { version := e.cfg.version, maxSize := e.inboundMax }
     let r := decodeBytes cfg e.dec data
     let e1 := { e with dec := r.dec }
     match r.err with
